@@ -138,7 +138,7 @@ def case (j : Json) : Except String Json := do
     pure (wrap text ((text.bind readBash).map (jarr bsymJson)) (some (jarr bsymJson (expectedBash ex ren data))))
   | "dip" =>
     let text := exportDip data
-    -- the reader model covers boolean / numeric nodes; with a string node present it answers `none`
+    -- the reader model answers `none` outside its fragment (a `$` in a string text, control characters in elements)
     pure (wrap text ((text.bind readDip).map (jarr paramJson)) (some (jarr paramJson (expectedDip data))))
   | "json" | "yaml" | "toml" =>
     let units := getBoolD o "units" true
